@@ -1,14 +1,15 @@
 #!/bin/bash
 # selftest: every patch under selftest/mutants/<Cxx>/ must make ./check <Cxx> report a VIOLATION,
 # every patch under selftest/refactors/<Cxx>/ must leave it passing. Each case runs on its own scratch
-# copy of /repo under $TMPDIR (removed afterwards); SELFTEST_JOBS cases run in parallel (default 4).
+# copy of /repo (or of $VERIF_BASE_REPO, e.g. the HEAD snapshot of `vp run --with-repo`) under $TMPDIR (removed
+# afterwards); SELFTEST_JOBS cases run in parallel (default 4).
 DIR="$(cd "$(dirname "$0")/.." && pwd)"
 ONLY="$1"
 export DIR
 run_one() { # kind prop patch
   kind=$1; prop=$2; patch=$3
   T=$(mktemp -d "${TMPDIR:-/tmp}/govc-selftest.XXXXXX")
-  rsync -a --exclude .git /repo/ "$T/repo/"
+  rsync -a --exclude .git "${VERIF_BASE_REPO:-/repo}/" "$T/repo/"
   if ! (cd "$T/repo" && patch -p1 -s < "$patch"); then echo "SELFTEST-ERROR $patch does not apply"; rm -rf "$T"; return; fi
   out=$(cd "$DIR" && VERIF_REPO="$T/repo" VERIF_EVIDENCE_DIR="$T/evidence" ./check "$prop" 2>&1); rc=$?
   rm -rf "$T"
